@@ -2,5 +2,6 @@ SPECIFICATION TSpec
 CONSTANTS
   MaxStreamId = 255
   KnownF5 = FALSE
+  KnownF16 = TRUE
 POSTCONDITION TraceAccepted
 CHECK_DEADLOCK FALSE
